@@ -154,16 +154,20 @@ def rule_K_ORDER(ctx, repo):
                          '%s:%d' % (m.rel, fi.node.lineno), render_path(o))
         if meth == 'encode':
             ctx.sample({'construct': fi.qual, 'returned key terms': [render(o.val)[:200] for o in outs if o.kind == RETURN][:3]})
-    # sorter role default
+    # sorter role default: on every path of __init__, self._sorted is builtin sorted or what the caller passed with builtin sorted as default
     init = base.methods.get('__init__')
     ok = False
-    for n_ in ast.walk(init.node):
-        if isinstance(n_, ast.Assign) and len(n_.targets) == 1 and isinstance(n_.targets[0], ast.Attribute) and n_.targets[0].attr == '_sorted':
-            v = n_.value
-            if isinstance(v, ast.Call) and v.args and isinstance(v.args[-1], ast.Name) and v.args[-1].id == 'sorted':
-                ok = True
-            if isinstance(v, ast.Name) and v.id == 'sorted':
-                ok = True
+    try:
+        iouts = [o for o in run_method(m, init, unroll=1) if o.kind == RETURN]
+    except AnalysisError:
+        iouts = []
+    if iouts:
+        ok = True
+        for o in iouts:
+            sets = [e for e in o.st.events if e.kind == 'SELFSET' and e.args[0] == SELF and e.args[1] == C('_sorted')]
+            good = bool(sets) and (sets[-1].args[2] == ('lib', 'sorted') or (
+                sets[-1].args[2][0] == 'call' and sets[-1].args[2][2] and sets[-1].args[2][2][-1] == ('lib', 'sorted')))
+            ok = ok and good
     ctx.ob('K-ORDER', 'keymap._sorted default', ok)
     if not ok:
         ctx.fail('K-ORDER', init.qual, 'sorter default', 'keymap.__init__ does not default the sorter role (_sorted) to builtin sorted',
